@@ -360,7 +360,11 @@ func runC08(c *Ctx) {
 		}
 	}
 	// strings of every length 0..120 over each alphabet, with and without valid framing
-	alphas := []string{b58alpha, b32alpha, b32alpha + ":", "0123456789abcdef", "abcdefghijklmnopqrstuvwxyz:1", "\x00\xff 1:"}
+	printable := ""
+	for ch := 33; ch <= 126; ch++ {
+		printable += string(rune(ch))
+	}
+	alphas := []string{b58alpha, b32alpha, b32alpha + ":", "0123456789abcdef", "abcdefghijklmnopqrstuvwxyz:1", "\x00\xff 1:", printable, "{|}~`@[]^_1q:"}
 	for L := 0; L <= 120; L++ {
 		for ai, al := range alphas {
 			s := randStr(c, al, L)
@@ -384,8 +388,21 @@ func runC08(c *Ctx) {
 			}
 			if s, err := bech32.Encode("bc", d); err == nil {
 				call("Bech32Decode", []byte(s))
+				if L > 0 { // every printable character outside the alphabet somewhere in the data part
+					for _, fc := range "{|}~`@[^_!" {
+						p := 3 + r.Intn(len(s)-3)
+						call("Bech32Decode", []byte(s[:p]+string(fc)+s[p+1:]))
+					}
+				}
 				call("Bech32Decode", []byte(s[:len(s)/2]+"1"+s[len(s)/2:]))
 			}
+		}
+	}
+	for n := 0; n <= 4; n++ { // Base58Check / WIF / key strings decoding to 0..8 bytes whose tail is a valid checksum
+		body := randBytes(r, n)
+		full := base58Ref(append(append([]byte{}, body...), sha256d(body)[:4]...))
+		for _, en := range []string{"Base58CheckDecode", "DecodeWIF", "NewKeyFromString", "DecodeAddress"} {
+			call(en, []byte(full))
 		}
 	}
 	for _, L := range []int{500, 2000, 10000, 100000} { // long inputs: time at most quadratic
